@@ -475,9 +475,12 @@ pub fn gen_session(seed: u64, run: u64, thorough: bool) -> Session {
     let mut frng = Rng::new(mix(mix(seed, run), 0xD15C));
     if frng.chance(1, 4) {
         for _ in 0..frng.range(1, 2) {
-            let k = if frng.chance(2, 3) { frng.range(1, 12) } else { frng.range(1, 40) } as u64;
+            let k = if frng.chance(1, 2) { frng.range(1, 15) } else { frng.range(1, 90) } as u64;
             let file = |r: &mut Rng| r.pick(&["src/a.gleam", "src/b.gleam", "test/t.gleam", "gleam.toml", "build/packages/dep/gleam.toml", "build/packages/dep/src/d.gleam"]).to_string();
-            let d = match frng.below(10) {
+            let d = match frng.below(12) {
+                // the path still exists but is no longer a regular file: reading it must not
+                // put the main loop to sleep
+                10 | 11 => DiskOp::Fifo { path: file(&mut frng) },
                 0..=3 => DiskOp::Remove { path: file(&mut frng) },
                 4..=5 => DiskOp::RemoveDir { path: frng.pick(&["src", "test", "build", "build/packages/dep", "build/packages/dep/src"]).to_string() },
                 6 => DiskOp::Write { path: frng.pick(&["gleam.toml", "build/packages/dep/gleam.toml"]).to_string(), text: frng.pick(&["name = [\n", "version = \"1\"\n", ""]).to_string() },
@@ -486,6 +489,33 @@ pub fn gen_session(seed: u64, run: u64, thorough: bool) -> Session {
                 _ => DiskOp::Remove { path: "gleam.toml".into() },
             };
             midload.push((k, d));
+        }
+    }
+    // Half of those sessions (and as many again) anchor a fault to one message that makes the
+    // server look at the disk - a didOpen or a file event: at the j-th file-system call the main
+    // loop makes after that message (j small: inside the handler of that very message) the path
+    // the message is about, or another project file, vanishes, changes or becomes a FIFO.
+    let mut midload_at = Vec::new();
+    if frng.chance(1, 3) {
+        let cands: Vec<usize> = ops.iter().enumerate().filter(|(_, p)| matches!(p.op, Op::Open { .. } | Op::Watched { .. })).map(|(i, _)| i).collect();
+        if !cands.is_empty() {
+            let watched: Vec<usize> = cands.iter().copied().filter(|i| matches!(ops[*i].op, Op::Watched { .. })).collect();
+            let i = if !watched.is_empty() && frng.chance(2, 3) { *frng.pick(&watched) } else { *frng.pick(&cands) };
+            let rel = |u: &str| u.strip_prefix(&format!("file://{root}/")).map(|r| r.to_string());
+            let own: Vec<String> = match &ops[i].op {
+                Op::Watched { changes } => changes.iter().filter_map(|(u, _)| rel(&canon(u))).collect(),
+                Op::Open { uri, .. } => rel(&canon(uri)).into_iter().collect(),
+                _ => Vec::new(),
+            };
+            let path = if !own.is_empty() && frng.chance(3, 4) { frng.pick(&own).clone() } else { frng.pick(&["src/a.gleam", "src/b.gleam", "gleam.toml", "build/packages/dep/gleam.toml"]).to_string() };
+            let j = if matches!(ops[i].op, Op::Watched { .. }) { frng.range(1, 6) } else { frng.range(1, 30) } as u64;
+            let d = match frng.below(6) {
+                0 | 1 => DiskOp::Fifo { path },
+                2 | 3 => DiskOp::Remove { path },
+                4 => DiskOp::WriteBytes { path, bytes: vec![0xff, 0xfe, 0x00, 0x80] },
+                _ => DiskOp::MkDir { path },
+            };
+            midload_at.push((i, j, d));
         }
     }
     Session {
@@ -504,6 +534,7 @@ pub fn gen_session(seed: u64, run: u64, thorough: bool) -> Session {
         ops,
         crashes: Vec::new(),
         midload,
+        midload_at,
         decisions: None,
         hold: None,
         meta: json!({}),
